@@ -9,14 +9,16 @@ DRIVER = "TraitsVerif/Driver/Val.lean"
 PROPS_MODULES = ["TraitsVerif.Props.C01"]
 TRANSLATORS = ["validate_tables"]
 RULE = ("a HasTraits class with three attributes (x: the trait under test, y: Int, z: a Map) is built per case; "
-        "every trait term of the option grid meets every value of the lattice through attribute assignment, "
+        "every trait term of the option grid (C03's grid plus int Range, String, PrefixList/PrefixMap, Type, Union, "
+        "Array(dtype, shape, casting) with arrays of 5 dtypes / 6 shapes) meets every value of the lattice through attribute assignment, "
         "trait_set and a constructor keyword (chunks of 8 values per history, interleaved with assignments to "
         "y and z); seeded random nestings of Either / Tuple / Union / TraitCompound with values chosen for their "
         "members; after every step the instance __dict__ is compared with the model's state and an independent "
         "Python reference (domain predicate + documented conversion per trait type, not the handler's validate) "
         "judges what was stored; non-trivial = the step stored a value or raised; distinct = distinct history output")
 TRUSTED = ["the reference predicates ref_domain / conv_ok of harness/props/c01.py (written from the documentation)",
-           "calling a type object on a value and re.match are parameters of the model (sent on the case line)",
+           "calling a type object on a value, re.match, numpy.asarray of a list/tuple and numpy.can_cast are parameters "
+           "of the model; their outcome is computed with the plain builtins / re / numpy and sent on the case line",
            "Py.Val (validated by C03's kinds p, q)"]
 ASSUMPTIONS = ["default values are not judged (C10): only assigned attributes are compared and checked",
                "no trait-change handlers are attached (C02); post_setattr is modelled for Map / PrefixMap only",
@@ -369,7 +371,6 @@ def raiser(t, value, ctx, obj, en):
         for m, x in pairs:
             if m == "NoneT":
                 continue
-            import traits.api as T
             o = V.build_trait(m, ctx)
             ct = V.as_ctrait(o)
             out, _, _ = V.show_outcome(lambda: ct.validate(obj, "x", x), ctx)
@@ -490,7 +491,7 @@ def run_impl(case):
         value = V.build_value(vterm, ctx)
         t = terms[name]
         hd = V.trait_head(t)
-        vc = V.value_class(vterm)
+        tags.add("value:" + V.value_class(vterm).split(":")[0])
         tags.add("op:" + k)
         tags.add("trait:" + (t if isinstance(t, str) else t[0]))
         target = obj
